@@ -255,7 +255,7 @@ class Interp:
         for exc, cond, where, nev in pend:
             if is_c(cond) and cond[1] is False:
                 continue
-            if neg(cond) in cur.pc:
+            if decided_by(cur.pc, cond) is False:
                 continue  # already excluded on this path (same guard raised earlier)
             r = cur.fork()
             del r.events[nev:]  # the operation raised before the later events happened
@@ -424,6 +424,10 @@ class Interp:
             if sig is not None:
                 out.append((s, sig))
                 continue
+            if not is_c(cond):
+                d = decided_by(s.pc, cond)
+                if d is not None:
+                    cond = c(d)
             if is_c(cond):
                 out.extend(self.exec_block(node.body if cond[1] else node.orelse, s, ctx))
                 continue
@@ -453,6 +457,10 @@ class Interp:
                     if sig is not None:
                         out.append((s, sig))
                         continue
+                    if not is_c(cond):
+                        d = decided_by(s.pc, cond)
+                        if d is not None:
+                            cond = c(d)
                     if is_c(cond) and not cond[1]:
                         out.extend(self.exec_block(node.orelse, s, ctx) if node.orelse else [(s, None)])
                         continue
@@ -673,6 +681,10 @@ class Interp:
                 if sig is not None:
                     out.append((s, top("raised"), sig))
                     continue
+                if not is_c(cond):
+                    d = decided_by(s.pc, cond)
+                    if d is not None:
+                        cond = c(d)
                 if is_c(cond):
                     out.extend(self.eval_forking(inner.body if cond[1] else inner.orelse, s, ctx))
                 else:
@@ -691,6 +703,10 @@ class Interp:
                     out.append((s, a, sig))
                     continue
                 ta = self.truth(a, s)
+                if not is_c(ta):
+                    d = decided_by(s.pc, ta)
+                    if d is not None:
+                        ta = c(d)
                 if is_c(ta):
                     if ta[1] == is_or:
                         out.append((s, a, None))
@@ -1399,6 +1415,50 @@ def _is_cond(v: Any) -> bool:
 
 def _linear_ok(v: Term) -> bool:
     return isinstance(v, tuple) and v and v[0] in ("c", "lin", "sym", "len", "app", "uint", "eattr")
+
+
+def _atoms(cond: Term) -> List[Term]:
+    if isinstance(cond, tuple) and cond and cond[0] == "and":
+        out: List[Term] = []
+        for x in cond[1:]:
+            out.extend(_atoms(x))
+        return out
+    return [cond]
+
+
+def decided_by(pc: List[Term], cond: Term) -> Optional[bool]:
+    """Literal-level decision of `cond` from the guards already on the path (no solving):
+    True if every conjunct of cond is already a guard, False if some conjunct's negation is."""
+    have = set()
+    for g in pc:
+        for a in _atoms(g):
+            have.add(a)
+    parts = _atoms(cond)
+    if all(p in have for p in parts):
+        return True
+    for p in parts:
+        if neg(p) in have:
+            return False
+        if isinstance(p, tuple) and p and p[0] == "or":
+            ds = list(p[1:])
+            if all(neg(d) in have for d in ds):
+                return False
+    if isinstance(cond, tuple) and cond and cond[0] == "or":
+        if any(d in have for d in cond[1:]):
+            return True
+    # would assuming cond falsify a disjunction already on the path?  (unit check, literals only)
+    ors = [g for g in have if isinstance(g, tuple) and g and g[0] == "or"]
+    if ors:
+        plus = have | set(parts)
+        for g in ors:
+            if all(neg(d) in plus or (isinstance(d, tuple) and d and d[0] == "and" and any(neg(x) in plus for x in d[1:])) for d in g[1:]):
+                return False
+        minus = have | {neg(p) for p in parts} if len(parts) == 1 else None
+        if minus is not None:
+            for g in ors:
+                if all(neg(d) in minus or (isinstance(d, tuple) and d and d[0] == "and" and any(neg(x) in minus for x in d[1:])) for d in g[1:]):
+                    return True
+    return None
 
 
 def neg(cond: Term) -> Term:
